@@ -42,7 +42,7 @@ NOT_AN_ENTRY_POINT = {"callback"}
 REQUIRED = [
     "dpop_total", "dpop_unfixed_witnesses", "keyresolver_baseurl_total", "keyresolver_total", "keyresolver_unfixed_witnesses",
     "service_resolve_terminates", "bitstring_total", "iblt_unmarshal_total", "subtract_mismatch_is_error",
-    "iblt_bucket_indices_total", "iblt_insert_delete_total", "iblt_decode_terminates", "iblt_decode_fuel_irrelevant", "iblt_decode_total",
+    "iblt_bucket_indices_total", "iblt_bucket_indices_exact", "iblt_insert_delete_total", "iblt_decode_terminates", "iblt_decode_fuel_irrelevant", "iblt_decode_total",
     "iblt_handle_set_total", "iblt_zero_buckets_never_divide", "murmur_chain_short_cycles", "iblt_unbounded_chain_hangs",
     "iblt_small_table_hangs_unfixed", "callback_total_in_handler", "callback_standalone_partial", "panic_sites_accounted",
     "model_panics_only_at_listed_sites", "fact_cfg_is_fixed", "fact_constants", "iblt_decode_pass_bound", "dpop_parse_ok_claims_are_strings",
